@@ -7,7 +7,7 @@ from .core import Tree, REPO, AnalysisError
 from .selftest import swap_if_else
 
 ALL_KINDS = ["rename", "swapif", "log", "augassign", "swapeq", "range0", "temp", "swapand", "elsereturn", "noop", "cmpflip", "noteq", "nestif", "guardcont",
-             "nameconst", "lenzero", "ifexp", "tupleassign", "swapstmt", "returnelse", "kwargs"]
+             "nameconst", "lenzero", "ifexp", "tupleassign", "swapstmt", "returnelse", "kwargs", "extract"]
 EXTRA_KINDS = []  # hand tool only until silent
 KINDS = list(ALL_KINDS)
 def functions(mod):
@@ -165,6 +165,39 @@ def gen_variants(files=None, kinds=None):
                     if isinstance(n, ast.Call) and _kwargs_able(n, t, m):
                         out.append((m.relpath, "kwargs", fi, k))
                         k += 1
+            if "extract" in KINDS:
+                for k in range(len(_extractable(fn))):
+                    out.append((m.relpath, "extract", fi, k))
+    return out
+
+
+def _extractable(fn):
+    """indices of top-level compound statements of fn that can be moved into a helper with the same variable names"""
+    out = []
+    params = [a.arg for a in fn.args.args]
+    for i, st in enumerate(fn.body):
+        if not isinstance(st, (ast.If, ast.For, ast.While)):
+            continue
+        if any(isinstance(x, (ast.Return, ast.Yield, ast.YieldFrom, ast.Global, ast.Nonlocal, ast.FunctionDef, ast.Lambda)) for x in ast.walk(st)):
+            continue
+        # break / continue must belong to loops inside st
+        def jumps_out(node, depth):
+            for c in ast.iter_child_nodes(node):
+                if isinstance(c, (ast.Break, ast.Continue)) and depth == 0:
+                    return True
+                if jumps_out(c, depth + (1 if isinstance(c, (ast.For, ast.While)) else 0)):
+                    return True
+            return False
+        if jumps_out(st, 1 if isinstance(st, (ast.For, ast.While)) else 0):
+            continue
+        stored = {x.id for x in ast.walk(st) if isinstance(x, ast.Name) and isinstance(x.ctx, ast.Store)}
+        after = {x.id for s2 in fn.body[i + 1:] for x in ast.walk(s2) if isinstance(x, ast.Name)}
+        if stored & after:
+            continue
+        before = set(params) | {x.id for s2 in fn.body[:i] for x in ast.walk(s2) if isinstance(x, ast.Name) and isinstance(x.ctx, ast.Store)}
+        if stored & before:
+            continue  # rebinding of an outer local would be lost
+        out.append(i)
     return out
 
 
@@ -505,6 +538,35 @@ def apply(v):
                     n.args = n.args[:1]
                     break
                 k += 1
+    elif kind == "extract":
+        idx = _extractable(fn)
+        if arg >= len(idx):
+            return None
+        i = idx[arg]
+        st = fn.body[i]
+        params = [a.arg for a in fn.args.args]
+        before = set(params) | {x.id for s2 in fn.body[:i] for x in ast.walk(s2) if isinstance(x, ast.Name) and isinstance(x.ctx, ast.Store)}
+        loads = []
+        for x in ast.walk(st):
+            if isinstance(x, ast.Name) and isinstance(x.ctx, ast.Load) and x.id in before and x.id not in loads and x.id != "self":
+                loads.append(x.id)
+        is_method = bool(params) and params[0] == "self"
+        hname = "_extracted_part"
+        args = (["self"] if is_method else []) + loads
+        helper = ast.parse(f"def {hname}({', '.join(args)}):\n    pass").body[0]
+        helper.body = [st]
+        call = ast.parse((f"self.{hname}(" if is_method else f"{hname}(") + ", ".join(loads) + ")").body[0]
+        fn.body[i] = call
+        # put the helper next to fn (same class body or module)
+        placed = False
+        for p in ast.walk(mod):
+            lst = getattr(p, "body", None)
+            if isinstance(lst, list) and fn in lst:
+                lst.insert(lst.index(fn) + 1, helper)
+                placed = True
+                break
+        if not placed:
+            return None
     ast.fix_missing_locations(mod)
     return ast.unparse(mod), fn.name
 
